@@ -410,7 +410,9 @@ def c08(ctx):
                     if er is not None:
                         cancel_edges.append(er)
             badt = [b for b in takes if not ((ready is not None and edom(p, ready, b)) or any(edom(p, c, b) for c in cancel_edges))]
-            if badt:
+            if ready is not None and not p.must_pass(ready, set(p.exits()), set(takes)):
+                out.append(bad(R, key, 'the user future can complete without task-finished being sent: the slot job waits for it while the SyncFuture waits for the slot job', loc=p.loc(upolls[0].bb), fn=p.name))
+            elif badt:
                 out.append(bad(R, key, 'task-finished can be sent while the user future has not completed (and the queue did not cancel): the queue moves on while the operation still runs', loc=p.loc(badt[0]), fn=p.name))
             else:
                 out.append(ok(R, key, 'task-finished is sent only after the user future returned Ready, or when the queue cancelled the slot', fn=p.name))
